@@ -716,7 +716,8 @@ def body(ctx):
         if status == "err" and all(v is not None for v in o.requested.values()):
             ctx.finding(f"{o.cls}/{op}/raises_on_valid_setting",
                         "a call on a transform whose parameters and constants were all set raises " + str(payload),
-                        {"class": o.cls, "ctor": o.ctor, "requested": o.requested, "via_get_transform": o.via_get, "error": payload})
+                        {"class": o.cls, "ctor": dict(o.ctor), "requested": dict(o.requested), "actual": o.P(),
+                         "via_get_transform": o.via_get, "op": op, "error": payload})
         reqs.append(line)
         checks.append((status, payload, case, list(o.bc) if o.cls in STATEFUL else None))
         return status, payload
